@@ -470,7 +470,51 @@ impl<'a> StringParser<'a> {
                 ),
             );
         }
-        Ok(spec_constructor)
+        Ok(self.merge_constants(spec_constructor))
+    }
+
+    /// Joins adjacent string constants and drops empty ones, as `parse_strings` does for the
+    /// top-level pieces: a self-documenting field nested in a format spec (`f'{x:{y=}}'`) yields its
+    /// echo text as constants of their own, which Python merges with the surrounding literal text.
+    fn merge_constants(&self, values: Vec<Expr>) -> Vec<Expr> {
+        let mut merged: Vec<Expr> = vec![];
+        let mut current = String::new();
+        for value in values {
+            match value {
+                Expr::Constant(ast::ExprConstant {
+                    value: Constant::Str(s),
+                    ..
+                }) => current.push_str(&s),
+                other => {
+                    if !current.is_empty() {
+                        merged.push(
+                            self.expr(
+                                ast::ExprConstant {
+                                    value: std::mem::take(&mut current).into(),
+                                    kind: None,
+                                    range: self.range(),
+                                }
+                                .into(),
+                            ),
+                        );
+                    }
+                    merged.push(other);
+                }
+            }
+        }
+        if !current.is_empty() {
+            merged.push(
+                self.expr(
+                    ast::ExprConstant {
+                        value: current.into(),
+                        kind: None,
+                        range: self.range(),
+                    }
+                    .into(),
+                ),
+            );
+        }
+        merged
     }
 
     fn parse_fstring(&mut self, nested: u8) -> Result<Vec<Expr>, LexicalError> {
